@@ -664,7 +664,13 @@ func judge(parent *model, c cmd, q quirks, r reply, o *obs, universe []string) (
 					addressedToo = true
 				}
 			}
-			if !addressedToo && !parent.mayHaveFlagUpdate(c.S, uid) {
+			updated := false
+			for _, u := range m.sess[c.S].flagUpd {
+				if u == uid {
+					updated = true
+				}
+			}
+			if !addressedToo && !updated {
 				add("FETCH", "%s: unexpected response %s (seq/uid/flags)", c.wire(), k)
 			}
 		}
@@ -691,12 +697,6 @@ func keysOf(m map[string]bool) []string {
 	}
 	sort.Strings(l)
 	return l
-}
-
-// mayHaveFlagUpdate: another session changed flags in the mailbox of session s at some point; the
-// unsolicited FETCH FLAGS updates that result are C08's subject, the model only tolerates them.
-func (m *model) mayHaveFlagUpdate(s int, uid uint32) bool {
-	return m.sess[s].box != nil && m.sess[1-s].box == m.sess[s].box
 }
 
 // execute replays n.hist on a fresh server, applies c, probes and judges.
